@@ -74,3 +74,23 @@ Example C07_p7_schedule_now_completes :
   existsb (fun a => match a with CDeadlock _ _ => true | _ => false end) tr = false /\
   existsb (fun a => match a with CDone 0 => true | _ => false end) tr = true.
 Proof. exact p7_schedule_now_completes. Qed.
+
+(* the put-back of processIf / processUntil (and HeterEventQueue::doProcessIf) is followed by
+   if(doCanProcess()) notify_one()  — read off the headers on every run (tie A, tools/leaves/queueconc.py) *)
+Theorem C07_putback_is_followed_by_a_notify :
+  (GenQConc.processif_putback_notifies, GenQConc.processuntil_putback_notifies, GenQConc.heter_processif_putback_notifies)
+  = (true, true, true).
+Proof. reflexivity. Qed.
+
+(* regression witnesses for the repaired put-back (7d407be): without that notify a waiter stays parked on a
+   queue that holds an event; with it the same schedule completes *)
+Theorem C07_putback_without_notify_refuted :
+  let tr := qc_run_code 400 [code_of AWait; code_of (AEnqueue 1 11%Z); processif_code false 0] p13_schedule in
+  existsb (fun a => match a with CDeadlock 1 _ => true | _ => false end) tr = true.
+Proof. exact putback_without_notify_refuted. Qed.
+
+Example C07_p13_schedule_now_completes :
+  let tr := qc_run_case 400 [[AWait]; [AEnqueue 1 11%Z]; [AProcessIf 0]] p13_schedule in
+  existsb (fun a => match a with CDeadlock _ _ => true | _ => false end) tr = false /\
+  existsb (fun a => match a with CDone 0 => true | _ => false end) tr = true.
+Proof. exact p13_schedule_now_completes. Qed.
